@@ -319,7 +319,8 @@ fn std_segments(std: &StandardLibrary) -> HashSet<String> {
     s
 }
 
-const SPECIAL: &[&str] = &["self", "_G", "shared", "type", "typeof", "Roact", "React", "game", "script", "workspace", "_", "_ENV", "arg"];
+// `pairs` / `ipairs` / `next`: manual_table_clone recognises iteration through these three spellings (Props/C14: C14_clone_shape_invariant)
+const SPECIAL: &[&str] = &["self", "_G", "shared", "type", "typeof", "Roact", "React", "game", "script", "workspace", "_", "_ENV", "arg", "pairs", "ipairs", "next"];
 
 /// an injective renaming of script-introduced names; returns (twin source, new→old map)
 pub fn rename_twin(src: &str, ast: &full_moon::ast::Ast, d: &Dumper, chunk: &Sx, std: &StandardLibrary, r: &mut Rng, stats: &mut Out) -> Option<(String, HashMap<String, String>)> {
